@@ -32,6 +32,7 @@ func runC11(w *World, r *Report) {
 	c11Scope(w, r)
 	c11Disabled(w, r)
 	c11Alias(w, r)
+	c11AliasWhole(w, r, "C11/ALIAS")
 	c11NameInPath(w, r)
 	c11AliasesFirst(w, r)
 	c11EnabledBeforeImport(w, r)
@@ -889,5 +890,81 @@ func c11EnabledBeforeImport(w *World, r *Report) {
 	}
 	if n == 0 {
 		r.Unk("C11/ENABLED-BEFORE-IMPORT", "no-site", "-", "no caller of processDependencyImportValues found")
+	}
+}
+
+// c11AliasWhole: the copy handed out for a dependency is the whole chart: a copy of the struct, or
+// every exported field of it carried over one by one. A copy that leaves a field behind (the schema, the
+// lock, the files) is another chart than the one that was loaded.
+func c11AliasWhole(w *World, r *Report, rule string) {
+	fn := w.Fn("pkg/chart/v2/util", "getAliasDependency")
+	if fn == nil {
+		r.Unk(rule, "alias-copy/anchor", "-", "getAliasDependency not found")
+		return
+	}
+	r.Fn(FuncName(fn))
+	var allocs []*ssa.Alloc
+	var walk func(v ssa.Value, d int)
+	seen := map[ssa.Value]bool{}
+	walk = func(v ssa.Value, d int) {
+		if seen[v] || d > 6 {
+			return
+		}
+		seen[v] = true
+		switch x := v.(type) {
+		case *ssa.Alloc:
+			allocs = append(allocs, x)
+		case *ssa.Phi:
+			for _, e := range x.Edges {
+				walk(e, d+1)
+			}
+		}
+	}
+	for _, b := range fn.Blocks {
+		if len(b.Instrs) == 0 {
+			continue
+		}
+		if ret, ok := b.Instrs[len(b.Instrs)-1].(*ssa.Return); ok && len(ret.Results) > 0 && !isNilConst(ret.Results[0]) {
+			walk(ret.Results[0], 0)
+		}
+	}
+	if len(allocs) == 0 {
+		r.Unk(rule, "alias-copy/none", w.Pos(fn.Pos()), "no copy is returned")
+		return
+	}
+	for i, a := range allocs {
+		st, ok := a.Type().Underlying().(*types.Pointer).Elem().Underlying().(*types.Struct)
+		if !ok {
+			continue
+		}
+		whole := false
+		stored := map[int]bool{}
+		for _, rf := range *a.Referrers() {
+			switch x := rf.(type) {
+			case *ssa.Store:
+				if x.Addr == ssa.Value(a) {
+					if ld, isLd := x.Val.(*ssa.UnOp); isLd && ld.Op == token.MUL {
+						whole = true
+					}
+				}
+			case *ssa.FieldAddr:
+				if x.Referrers() != nil {
+					for _, rr := range *x.Referrers() {
+						if s2, ok := rr.(*ssa.Store); ok && s2.Addr == ssa.Value(x) {
+							stored[x.Field] = true
+						}
+					}
+				}
+			}
+		}
+		var missing []string
+		if !whole {
+			for k := 0; k < st.NumFields(); k++ {
+				if st.Field(k).Exported() && !stored[k] {
+					missing = append(missing, st.Field(k).Name())
+				}
+			}
+		}
+		r.Check(whole || len(missing) == 0, rule, fmt.Sprintf("alias-copy#%d/whole", i+1), w.Pos(a.Pos()), "the copy carries every field of the loaded chart", "the copy handed out for a dependency leaves fields of the loaded chart behind ("+strings.Join(missing, ", ")+"): an aliased dependency loses them (without Schema its values are no longer validated)")
 	}
 }
